@@ -368,6 +368,10 @@ func TestVerifC08Filter(t *testing.T) {
 			if s != nil && *s > 0 {
 				d := time.Duration(*s) * time.Second
 				tsCands = append(tsCands, -d-time.Second, -d, -d+time.Second)
+				if d > interval+2*time.Second {
+					// scheduled longer ago than one report interval, after-scheduled window still open
+					tsCands = append(tsCands, -interval-(d-interval)/2, -interval-(d-interval)/2, -interval-time.Second-time.Second)
+				}
 			}
 		}
 		for i, p := range m.pods {
@@ -401,6 +405,10 @@ func TestVerifC08Filter(t *testing.T) {
 						d = time.Duration(*s) * time.Second
 					}
 					c08SetCond(obj, corev1.PodInitialized, corev1.ConditionTrue, refUT.Add(-d).Add(time.Duration(r.Range(-1, 1))*time.Second).Truncate(time.Second))
+				} else if r.Pct(40) {
+					// still running its init containers
+					obj.Status.Phase = corev1.PodPending
+					c08SetCond(obj, corev1.PodInitialized, corev1.ConditionFalse, ts.Truncate(time.Second))
 				}
 				m.evInformerAdd(c, "", p, obj)
 			} else {
@@ -650,7 +658,13 @@ func boundaryName(env *c08Env, i int) string {
 func c08CheckDecision(c *kit.Case, env *c08Env, m *c08Model, nodeName string, prof c08Profile, alloc, incVec []int64, st *fwktype.Status, kind string) string {
 	nm := m.metrics[nodeName]
 	pods := m.assignedOn(nodeName)
-	existing, defined := c08Expect(env, nm, pods, prof.mode, nil)
+	var est c08ExpectStats
+	existing, defined := c08Expect(env, nm, pods, prof.mode, &est)
+	for _, k := range []string{"after-initialized", "after-scheduled", "after-scheduled/not-initialized-both"} {
+		if n := est.forcedOnlyByWindow[k]; n > 0 {
+			c.Count("filter_pods_estimated_only_by_window_"+k, n)
+		}
+	}
 	pass := st.IsSuccess()
 	if pass {
 		c.Count("filter_pass", 1)
